@@ -17,6 +17,23 @@ fn main() {
             decaf_verif::props::run(&args[2], tier, &env)
         }
         Some("replay") if args.len() >= 4 => decaf_verif::props::replay(&args[2], Path::new(&args[3]), &env),
+        Some("case-from-fuzz") if args.len() >= 5 => {
+            // decaf-verif case-from-fuzz <ID> <artifact> <out.json>: turn a libFuzzer artefact into a replay file
+            let data = std::fs::read(&args[3]).unwrap_or_default();
+            let v = match args[2].as_str() {
+                "C02" => decaf_verif::fuzzdec::c02_case(&data).map(|c| serde_json::to_value(c).unwrap()),
+                "C11" => decaf_verif::fuzzdec::c11_case(&data).map(|c| serde_json::to_value(c).unwrap()),
+                "C12" => decaf_verif::fuzzdec::c12_case(&data).map(|c| serde_json::to_value(c).unwrap()),
+                _ => None,
+            };
+            match v {
+                Some(case) => {
+                    let j = serde_json::json!({"property": args[2], "origin": format!("libFuzzer artefact {}", args[3]), "case": case});
+                    std::fs::write(&args[4], serde_json::to_string_pretty(&j).unwrap()).map(|_| 0).unwrap_or(2)
+                }
+                None => 2,
+            }
+        }
         Some("list") => {
             for id in decaf_verif::props::IDS {
                 println!("{id}");
